@@ -20,9 +20,10 @@
 //	each requester received in total (the model runs the fair completion in which every
 //	consumer is parked when its packet is handed over).  Cases whose outcome depends on the
 //	schedule because of the known finding close-discards-buffered (a raw receiver owed
-//	something on its own closed writer; a requester whose release hangs on a node's backward
-//	loop seeing the drop notices of its closed out-writer) are run and judged by the oracle but
-//	not compared; of the second kind only a few are run (each costs a wait).
+//	something on its own closed writer) are run and judged by the oracle but not compared.
+//	A requester whose release hangs on a node whose out-writer alone is closed is released
+//	deterministically since the node's backward loop drops what is pending when the channel
+//	closes (Tracer.Drop); those cases are compared like all others.
 //
 // (b) property oracle (independent of the model): every requester returns within the watchdog;
 //
@@ -367,7 +368,7 @@ type workflow struct {
 	nextV, nextA int
 	firstPostV   int          // payloads from here on belong to requests written after the crash point
 	srcClosed    map[qid]bool // the requester's own writer was closed by the crash (class (i) of close-discards-buffered)
-	nodeLossy    map[qid]bool // the release of q hangs on a node's backward loop seeing drop notices of its closed out-writer (class (ii))
+	nodeLossy    map[qid]bool // always empty now: the release of q through a node whose out-writer alone is closed used to be schedule-dependent
 	noCompare    bool         // the outcome is schedule-dependent (known finding): not compared with the model
 	inPortIdx    map[string]int
 	outPortIdx   map[string]int
@@ -611,7 +612,7 @@ func (wf *workflow) warm(q qid, s *sinkRT) string {
 }
 
 // shortWait is how long a requester whose release is known to be schedule-dependent (known
-// finding close-discards-buffered, class (ii)) is waited for; whatever the outcome it is
+// finding close-discards-buffered, former class (ii) – no requester is in it any more) is waited for; whatever the outcome it is
 // attributed to the finding.
 const shortWait = 400 * time.Millisecond
 
@@ -954,9 +955,9 @@ func (wf *workflow) pathOfPortIdx(m map[string]int, i int) int {
 // classify evaluates the class predicates of the known finding close-discards-buffered.
 //
 //	(i)  srcClosed[q]: the crash closes q's own source writer (raw receivers may see the closed channel);
-//	(ii) nodeLossy[q]: q is owed a response and the most upstream endpoint the crash closes on q's
-//	     chain is a node's out-writer: the release hangs on that node's backward loop receiving the
-//	     drop notices, which the pump may discard.
+//	(the former class (ii) – q is owed a response and the most upstream endpoint the crash closes on
+//	     q's chain is a node's out-writer – is repaired: the node's backward loop drops what is
+//	     pending when the channel closes.)
 func (wf *workflow) classify(acts []action, owed map[qid]int) {
 	sc := wf.sc
 	if sc.bare {
@@ -1011,10 +1012,10 @@ func (wf *workflow) classify(acts []action, owed map[qid]int) {
 			if first == 0 {
 				wf.srcClosed[q] = true
 			}
-			if first != 1<<30 && first%2 == 0 && first >= 2 && owed[q] > 0 {
-				wf.nodeLossy[q] = true
-				wf.noCompare = true
-			}
+			// (the most upstream endpoint closed being a node's out-writer used to be class (ii): the
+			// node's backward loop now drops what is pending when the channel closes, the release of q
+			// is deterministic and such cases are compared like all others)
+			_ = owed
 		}
 	}
 }
@@ -1695,7 +1696,8 @@ func actions(sc *scen) (primary, extra []action) {
 	return
 }
 
-// lossyCase predicts from the scenario alone whether classify will put the case into class (ii).
+// lossyCase tells from the scenario alone whether the release of some requester hangs on a node whose
+// out-writer is the most upstream endpoint closed (the former class (ii); counted for the evidence).
 func lossyCase(sc *scen, prefix int, acts []action) bool {
 	if sc.bare {
 		return false
@@ -1865,7 +1867,7 @@ func Run(c *lib.Ctx) {
 	c.Assumptions = []string{
 		"every public method of Writer/Reader/ports/Process is one atomic step (runs under the object's mutex; C20); crash points are the quiesced states between the steps of a sequentialised schedule (after each write has reached its sinks, after each answer has reached its requester)",
 		"after the crash point the real code runs freely (optionally with the goroutines Reader.Close spawns held back by the VerifReceive hook until all crash actions have run); only schedule-independent observations are compared: return values of synchronous calls and what each requester received in total; cases in the classes of the known finding close-discards-buffered are schedule-dependent and are judged by the oracle only",
-		"the writer pump discards what it buffers when the writer is closed (the code; a drain was tried and withdrawn because it parks the goroutine for ever when nobody reads Receive() after Close – C05): the closed Receive() channel stands for the dropped responses; Send/SendOrFallback report it as a dropped packet (fix 0b0c3f4); raw receivers and node backward loops do not (known finding)",
+		"the writer pump discards what it buffers when the writer is closed (the code; a drain was tried and withdrawn because it parks the goroutine for ever when nobody reads Receive() after Close – C05): the closed Receive() channel stands for the dropped responses; Send/SendOrFallback report it as a dropped packet (fix bb42815), the backward loops of nodes and Pipe resolve what is still pending as dropped (Tracer.Drop); raw receivers on their own closed writer see the closed channel (known finding, class (i))",
 		"the model treats a OneToOneNode with one in and one out as a relay (forward: write or echo; backward: pass the response up); the Tracer's bookkeeping is C02's subject",
 		"promptness is observed (watchdog " + watchdog.String() + "), not proved; liveness in Lean is a measure argument under weak fairness of drop deliveries, pump steps and node loops",
 	}
@@ -1881,7 +1883,6 @@ func Run(c *lib.Ctx) {
 	maxEv := c.Scale(6, 8)
 	pairsPer := c.Scale(3, 6)
 	totalOwed, totalReleased := 0, 0
-	lossyRun, lossyBudget := 0, c.Scale(8, 40)
 	unknownFails := 0
 	knownSeen := map[string]int{}
 	isKnown := func(class string) bool {
@@ -1900,12 +1901,7 @@ func Run(c *lib.Ctx) {
 		}
 		fmt.Fprintf(prog, "scenario %d (%s) events=%s prefix=%d actions=%s\n", sc.id, sc.describe(), showEvents(sc.events), prefix, strings.Join(as, " + "))
 		if lossyCase(sc, prefix, acts) {
-			// outcome schedule-dependent (known finding, class (ii)); every such case costs a wait: only a few are run
-			if lossyRun >= lossyBudget {
-				c.Hit("skipped-known-class-node-out-writer-closed")
-				return
-			}
-			lossyRun++
+			c.Hit("node-out-writer-closed-alone-with-responses-owed")
 		}
 		res := runCase(sc, prefix, acts)
 		key := ""
